@@ -594,6 +594,8 @@ def run(ctx) -> None:
     from rules.units_common import check_quantity_source_unit, check_value_unit_pairing
     nq = check_quantity_source_unit(ctx, 'W7')
     nq += check_value_unit_pairing(ctx, 'W7')
+    from rules.units_common import check_no_inplace_conversion
+    nq += check_no_inplace_conversion(ctx, 'W7')
     ctx.floor('W7', nq, 5, 'quantity/relabel sites')
     ctx.rule('W9', 'a value printed next to CurrentUnits is read after the writer converted the outputs, not captured before')
     ctx.rule('W10', 'inputs are declared with CurrentUnits = PreferredUnits unless frozen with a reason: otherwise the echo converts the value a '
